@@ -704,7 +704,12 @@ def run_file(ctx, i):
     from vmon import boot
     from vmon.gen.c15_polys import file_case
     rng = ctx.rng([K_FILE, i])
-    filters, how = file_case(rng, _features())
+    # (every 25th file holds many filters: more text than any read buffer)
+    many = i % 50 == 3
+    filters, how = file_case(rng, _features(), max_filters=20 if not many else 600,
+                             min_filters=1 if not many else 100)
+    if many:
+        ctx.count("files_with_many_filters")
     k = len(filters)
     path = boot.scratch() / f"c15_{os.getpid()}_{i}.poly"
     if path.exists():
